@@ -4,7 +4,10 @@ From Spl Require Export Judge.Dump.
 From Spl Require Model.Lifecycle Model.Doc.
 From Spl Require Judge.RunCodec.
 From Spl Require Judge.RunBroker.
-From Spl Require Import Judge.DumpAst Model.Parser.
+From Spl Require Judge.RunGrammar.
+From Spl Require Judge.RunSem.
+From Spl Require Judge.RunFmt.
+From Spl Require Import Judge.DumpAst Model.Parser Model.ParserInc.
 
 Fixpoint take_bytes (n : N) (s : text) (fuel : nat) : option text :=
   if n =? 0 then Some [] else
@@ -50,6 +53,42 @@ Definition run_parse (args : list N) : list N :=
   match lex args with
   | Some toks =>
       match parse toks with
+      | Done p => 0 :: enc_program p
+      | Panic => [1]
+      | OutOfFuel => [2]
+      end
+  | None => [2]
+  end.
+
+(* incremental parse of one change: old text, change; the old tree is parser::parse of the old tokens *)
+Definition run_incparse (args : list N) : list N :=
+  match args with
+  | n :: rest =>
+      let (old, rest1) := split_at n rest in
+      match rest1 with
+      | cs :: ce :: ins =>
+          match replace_range old cs ce ins, lex old with
+          | Some new, Some otoks =>
+              match parse otoks, lex_update new otoks cs ce ins with
+              | Done tree, UDone ntoks a b k =>
+                  match parse_update tree ntoks a b k with
+                  | Done p => 0 :: enc_program p
+                  | Panic => [1]
+                  | OutOfFuel => [2]
+                  end
+              | _, _ => [5]
+              end
+          | _, _ => [3]
+          end
+      | _ => [4]
+      end
+  | _ => [4]
+  end.
+
+Definition run_parse_via_inc (args : list N) : list N :=
+  match lex args with
+  | Some toks =>
+      match parse_via_inc toks with
       | Done p => 0 :: enc_program p
       | Panic => [1]
       | OutOfFuel => [2]
@@ -130,6 +169,11 @@ Definition judge_run (cmd : list N) : list N :=
   | 5 :: args => DC.run_pos args
   | 6 :: args => DC.run_apply args
   | 7 :: args => run_parse args
+  | 8 :: args => RunSem.run_sem args
+  | 9 :: args => RunFmt.run_fmt args
+  | 14 :: args => run_incparse args
+  | 15 :: args => run_parse_via_inc args
+  | 10 :: args => RunGrammar.run_grammar args
   | 11 :: args => RunCodec.run_codec (1 :: args)
   | 12 :: args => RunCodec.run_codec (2 :: args)
   | 13 :: args => RunCodec.run_codec (3 :: args)
